@@ -770,16 +770,26 @@ func (h *handler) addHandlerContext(messages ...*Message) {
 }
 
 func (h *handler) handleClose(ctx context.Context) {
-	select {
-	case <-h.routersCloseCh:
+	closeSubscriber := func() {
 		// for backward compatibility we are closing subscriber
 		h.logger.Debug("Waiting for subscriber to close", nil)
 		if err := h.subscriber.Close(); err != nil {
 			h.logger.Error("Failed to close subscriber", err, nil)
 		}
 		h.logger.Debug("Subscriber closed", nil)
+	}
+
+	select {
+	case <-h.routersCloseCh:
+		closeSubscriber()
 	case <-ctx.Done():
-		// we are closing subscriber just when entire router is closed
+		// we are closing subscriber just when entire router is closed;
+		// Run cancels ctx right after the router started closing, so both cases may be ready
+		select {
+		case <-h.routersCloseCh:
+			closeSubscriber()
+		default:
+		}
 	}
 	h.stopFn()
 }
